@@ -10,6 +10,7 @@ import (
 	"fmt"
 	"io"
 	"math"
+	"reflect"
 
 	"gorgonia.org/tensor"
 )
@@ -74,6 +75,9 @@ func (s Shape) String() string {
 }
 
 var ErrInvalidType = errors.New("invalid type")
+
+// ErrInvalidShape is returned when the data of a tensor does not fit its declared shape.
+var ErrInvalidShape = errors.New("tensor data does not match its shape")
 
 // Dim is a dimension.
 type Dim struct {
@@ -210,7 +214,29 @@ func TensorFromProto(tp *TensorProto) (tensor.Tensor, error) {
 		return nil, err
 	}
 
-	return tensor.New(tensor.WithShape(getDims(tp)...), tensor.WithBacking(values)), nil
+	// The number of decoded values must be exactly the number of elements of the declared shape;
+	// the tensor library panics on a mismatch.
+	dims := getDims(tp)
+	nElements := 1
+
+	for _, dim := range dims {
+		if dim < 0 {
+			return nil, ErrInvalidShape
+		}
+
+		nElements *= dim
+	}
+
+	nValues := 0
+	if values != nil {
+		nValues = reflect.ValueOf(values).Len()
+	}
+
+	if nValues != nElements {
+		return nil, ErrInvalidShape
+	}
+
+	return tensor.New(tensor.WithShape(dims...), tensor.WithBacking(values)), nil
 }
 
 func getFloatData(tp *TensorProto) ([]float32, error) {
